@@ -526,12 +526,81 @@ def r03e(ctx, rep):
             rep.anchor_lost("R03e", "State::Used arm in Heap::sweep")
 
 
+def r03g(ctx, rep, rule="R03g"):
+    facts = ctx["facts"]
+    rep.rule(rule, "the live range of the stack includes its top: Stack::push stores at index sp+1 and then increments "
+             "sp, so the most recently pushed value sits at index sp; every slice of the stack vector whose end is "
+             "derived from sp (the collector's root range in iter_to_sp, the continuation snapshot in to_continuation) "
+             "must therefore end at sp + c with c >= 1 (exclusive end) — a range ending at sp leaves the top slot "
+             "unrooted / unsaved.")
+    n = 0
+    for p, f in sorted(facts.fns.items()):
+        if not p.startswith(STACK) or f.impl_trait in DERIVE_TRAITS:
+            continue
+        for bb, t in f.calls():
+            fa = t.get("fnargs") or ""
+            if "as std::ops::Index<std::ops::Range" not in fa or "VCell" not in fa or len(t["args"]) < 2:
+                continue
+            r = f.origin(t["args"][0])
+            if not (r[0] == "arg" and r[1] == 1 and r[2] and isinstance(r[2][0], dict) and r[2][0].get("n") == "stack"):
+                continue
+            o = f.origin(t["args"][1])
+            if not (o[0] == "rv" and o[1]["rv"]["k"] == "agg" and o[1]["rv"].get("adt", "").startswith("std::ops::Range")):
+                continue
+            adt = o[1]["rv"]["adt"].rsplit("::", 1)[-1]
+            ops = o[1]["rv"]["ops"]
+            if adt not in ("Range", "RangeTo", "RangeInclusive", "RangeToInclusive") or not ops:
+                continue
+            end = f.origin(ops[-1])
+            def from_sp(x):
+                return x[0] == "arg" and x[1] == 1 and x[2] and isinstance(x[2][0], dict) and x[2][0].get("n") == "sp"
+            c = None
+            if from_sp(end):
+                c = 0
+            elif end[0] == "rv" and end[1]["rv"]["k"] == "bin" and "Add" in end[1]["rv"]["op"]:
+                a = f.origin(end[1]["rv"]["a"])
+                b = op_const_int(end[1]["rv"]["b"])
+                if from_sp(a) and b is not None:
+                    c = b
+            if c is None:
+                continue
+            n += 1
+            incl = "Inclusive" in adt
+            key = "%s|%s|range-end" % (rule, f.short)
+            ok = (c >= 1) or (incl and c >= 0)
+            (rep.ok if ok else rep.fail)(
+                rule, key, "%s slices the stack up to and including index sp" % f.short if ok else
+                "%s slices the stack as [..sp%s] which excludes the top slot (index sp, written by the last push): the most "
+                "recently pushed value is %s" % (f.short, "+%d" % c if c else "",
+                                                 "not a root of the collection" if "iter" in p else "not saved"), [t["loc"]])
+    rep.floor(rule, "sp-bounded slices of the stack vector", n, 2)
+    # the premise: push stores at sp + 1
+    push = facts.fn(STACK + "push")
+    if push is not None:
+        ok = False
+        for bb, t in push.calls():
+            if callee(t).endswith("get_mut") and len(t["args"]) > 1:
+                o = push.origin(t["args"][1])
+                if o[0] == "rv" and o[1]["rv"]["k"] == "bin" and "Add" in o[1]["rv"]["op"] and op_const_int(o[1]["rv"]["b"]) == 1:
+                    ok = True
+        (rep.ok if ok else rep.fail)(rule, "%s|push|stores-at-sp+1" % rule,
+                                     "premise: Stack::push stores at index sp + 1" if ok else
+                                     "premise changed: Stack::push no longer stores at sp + 1; the root-range rule must be re-derived",
+                                     [push.span])
+
+
+def op_const_int(op):
+    c = op.get("const") if op else None
+    return c.get("int") if c else None
+
+
 def run(ctx, rep):
     r03a(ctx, rep)
     r03b(ctx, rep)
     empty = r03c(ctx, rep) or []
     r03d(ctx, rep, empty)
     r03e(ctx, rep)
+    r03g(ctx, rep)
     from . import C18
     C18.r18a(ctx, rep, rule="R03f")
     C18.r18b(ctx, rep, rule="R03f")
